@@ -16,14 +16,20 @@ pub struct Cfg {
     pub division: bool,
     pub poly: bool,
     pub floats: bool,
+    /// the fragment the algebra translation supports: ret, do, functions, thunks, transparent data and
+    /// matches, lets; no host operations, recursion, codata or polymorphism
+    pub mo: bool,
 }
 
 impl Cfg {
     pub fn quick() -> Cfg {
-        Cfg { budget: 70, depth: 6, stdin: true, division: true, poly: true, floats: true }
+        Cfg { budget: 70, depth: 6, stdin: true, division: true, poly: true, floats: true, mo: false }
+    }
+    pub fn monadic(budget: isize, depth: usize) -> Cfg {
+        Cfg { budget, depth, stdin: false, division: false, poly: false, floats: false, mo: true }
     }
     pub fn thorough() -> Cfg {
-        Cfg { budget: 220, depth: 10, stdin: true, division: true, poly: true, floats: true }
+        Cfg { budget: 220, depth: 10, stdin: true, division: true, poly: true, floats: true, mo: false }
     }
 }
 
@@ -112,11 +118,11 @@ impl<'t, 'b> G<'t, 'b> {
                     match self.t.below(8) {
                         | 0 => VTy::Unit,
                         | 1 => self.simple_vty(i),
-                        | 2 => {
+                        | 2 if !self.cfg.mo => {
                             recursive = true;
                             VTy::Data(i)
                         }
-                        | 3 => {
+                        | 3 if !self.cfg.mo => {
                             recursive = true;
                             prod(vec![self.simple_vty(i), VTy::Data(i)])
                         }
@@ -141,10 +147,10 @@ impl<'t, 'b> G<'t, 'b> {
                 };
                 ctors.push((name, payload));
             }
-            let sealed = self.t.flag();
+            let sealed = self.t.flag() && !self.cfg.mo;
             self.datas.push(DataDecl { sealed, ctors, recursive });
         }
-        let nc = self.t.below(3);
+        let nc = if self.cfg.mo { 0 } else { self.t.below(3) };
         for i in 0..nc {
             let nd = 1 + self.t.below(3);
             let mut dtors = vec![];
@@ -780,7 +786,8 @@ impl<'t, 'b> G<'t, 'b> {
             | CTy::Arrow(..) | CTy::Codata(_) => 4,
             | _ => 0,
         };
-        let choice = weighted(self.t, &[w_intro, 5, 3, w_match, w_call, w_host, 3, 2, w_fix, w_os, 2]);
+        let (w_host, w_branch, w_fix) = if self.cfg.mo { (0, 0, 0) } else { (w_host, 3, w_fix) };
+        let choice = weighted(self.t, &[w_intro, 5, 3, w_match, w_call, w_host, w_branch, 2, w_fix, w_os, 2]);
         match choice {
             // introduction form of the expected type
             | 0 => match t {
@@ -964,7 +971,8 @@ impl<'t, 'b> G<'t, 'b> {
                 self.feat("let-thunk");
                 let b = self.gen_cty(2);
                 let a = VTy::Thk(Box::new(b.clone()));
-                let body = match self.gen_fix(&b, depth) {
+                let fixed = if self.cfg.mo { None } else { self.gen_fix(&b, depth) };
+                let body = match fixed {
                     | Some(c) if self.t.flag() => c,
                     | _ => self.gen_comp(&b, depth - 1),
                 };
@@ -1047,6 +1055,44 @@ impl<'t, 'b> G<'t, 'b> {
             n_tyvars: self.next_tyvar,
         }
     }
+}
+
+/// A closed returning computation `body : Ret a` over the monadic fragment, with the code that renders
+/// its result: `show` prints `Var(r) : a` and then forces `Var(k) : Thk OS`.
+pub struct MoProgram {
+    pub prog: Program,
+    pub body: Comp,
+    pub a: VTy,
+    pub show: Comp,
+    pub r: Bid,
+    pub k: Bid,
+    /// `do r <- body ; show ; exit 0` for the reference machine
+    pub reference_main: Comp,
+    pub feats: BTreeMap<&'static str, u32>,
+}
+
+pub fn gen_mo_program(tape: &[u8], cfg: &Cfg) -> MoProgram {
+    let mut t = Tape::new(tape);
+    let mut g = G::new(&mut t, cfg.clone());
+    g.gen_decls();
+    let mut a = g.gen_vty(2);
+    if !g.printable(&a) {
+        a = prod(vec![VTy::Int(IntTy::I64), VTy::Str]);
+    }
+    let depth = g.cfg.depth;
+    let body = g.gen_comp(&CTy::Ret(Box::new(a.clone())), depth);
+    g.scope.clear();
+    let r = g.bid();
+    let k = g.bid();
+    let show = g.print_val(Val::Var(r), &a, Comp::Force(Val::Var(k), CTy::OS), 3);
+    // reference: run the plain body, print, exit 0
+    let r2 = g.bid();
+    let exit = g.call_host(HostOp::Exit, None, vec![Val::Int(IntTy::I64, 0)]);
+    let show2 = g.print_val(Val::Var(r2), &a, exit, 3);
+    let reference_main = Comp::Do(Pat::Var(r2), a.clone(), Box::new(body.clone()), Box::new(show2));
+    let feats = g.feats.clone();
+    let prog = g.finish(reference_main.clone());
+    MoProgram { prog, body, a, show, r, k, reference_main, feats }
 }
 
 /// Decode a whole program from a tape.
